@@ -3,6 +3,7 @@ CONSTANTS
   K = 3
   MaxLeaves = 5
   MaxLeaves2 = 4
+  LargerFirstFrom = 5
   Cells1 <- AllCells
   Cells2 <- CellsSG
   Weights = {0, 1, 2}
